@@ -356,6 +356,7 @@ pub fn run_monitor_case(case: &TxCase, stats: &mut Stats, focus: &str) -> Vec<Vi
         m.check_frame_snapshots = matches!(focus, "C06" | "C08" | "C25" | "C07");
         m.check_access = matches!(focus, "C34" | "C25");
         m.check_memory = matches!(focus, "C11" | "C25");
+        m.trace = std::env::var("VERIF_TRACE").is_ok();
     }
     let mut nontrivial = false;
     for (i, op) in case.ops.iter().enumerate() {
